@@ -315,4 +315,7 @@ func rulesC09(e *Engine, r *Report) {
 		}
 		r.Min("R09.6", "extension edges in the coverage scan", nExt, 1)
 	}
+	// ---------------------------------------------------------------- R09.7
+	r.Rule("R09.7", "ranges on record describe the partial that exists NOW: when a file that failed validation is announced again its partial is created anew (zero-filled), so the complete companion of the failed attempt must be gone before new ranges are recorded - removed by the validator on every failure path or by the stage-file initialiser on every `state == failed` path; else the first part of the retry is merged into a record that lists ranges never written to the new partial and the file counts as complete at once - shared with R03.5")
+	e.checkFailedCompanionDiscarded(r, "R09.7")
 }
